@@ -11,6 +11,10 @@ use uv::Serialize;
 
 mod spec;
 mod codec;
+mod memcheck;
+
+#[global_allocator]
+static GLOBAL: memcheck::Checking = memcheck::Checking;
 mod hc;
 mod rate;
 mod ep;
@@ -31,6 +35,7 @@ fn main() {
     let stdout = std::io::stdout();
     let mut out = std::io::BufWriter::with_capacity(1 << 20, stdout.lock());
 
+    let mem_report = std::env::var("VERIF_MEM").is_ok();
     let mut hc_state = hc::State::new();
     let mut rate_state = rate::State::new();
     let mut ep_state = ep::State::new();
@@ -69,6 +74,9 @@ fn main() {
             hc_state.reset();
             rate_state.reset();
             if mode == "ep" { ep_state.reset(); }
+            if mem_report {
+                writeln!(out, "mem live={} mismatches={} {}", memcheck::live_bytes(), memcheck::mismatches(), memcheck::first_mismatch()).unwrap();
+            }
             continue;
         }
         // flush before each op so that everything observed before a hang is kept
